@@ -118,11 +118,21 @@ func (c *Ctx) hasPrefixQ(s, p Val) Term {
 		}
 		return and(ts...)
 	}
-	k := c.fresh("k")
-	c.hasQ = true
-	body := imp(and(app("bvsle", bvLit(64, 0), k), app("bvslt", k, p.Len)),
-		eq(c.sliceElem(s, k).T, c.sliceElem(p, k).T))
-	return and(app("bvsle", p.Len, s.Len), fmt.Sprintf("(forall ((%s (_ BitVec 64))) %s)", k, body))
+	// opaque predicate with its definition asserted per application: equal
+	// arguments give equal truth values by congruence, without the solver
+	// having to compare two quantified formulas.
+	asort := arrSort(bvSort(64), bvSort(8))
+	c.declFun("hasprefix", []string{asort, bvSort(64), bvSort(64), asort, bvSort(64), bvSort(64)}, SBool)
+	t := app("hasprefix", s.Arr[0], s.Off, s.Len, p.Arr[0], p.Off, p.Len)
+	if !c.faSeen["def:"+t] {
+		c.faSeen["def:"+t] = true
+		k := c.fresh("k")
+		c.hasQ = true
+		body := imp(and(app("bvsle", bvLit(64, 0), k), app("bvslt", k, p.Len)),
+			eq(c.sliceElem(s, k).T, c.sliceElem(p, k).T))
+		c.pending = append(c.pending, eq(t, and(app("bvsle", p.Len, s.Len), fmt.Sprintf("(forall ((%s (_ BitVec 64))) %s)", k, body))))
+	}
+	return t
 }
 
 // ---------------------------------------------------------------- maps
@@ -287,4 +297,14 @@ func symName(s string) string {
 		return "|" + s + "|"
 	}
 	return s
+}
+
+// constArr: an array (index BV64) whose every element is the zero of sort s.
+// For element sorts without a literal zero (arrays) an unconstrained array is
+// used instead (cvc5 rejects non-value arguments of `as const`).
+func (c *Ctx) constArr(s string) Term {
+	if strings.HasPrefix(s, "(Array") {
+		return c.declConst(c.fresh("arr0"), arrSort(bvSort(64), s))
+	}
+	return fmt.Sprintf("((as const %s) %s)", arrSort(bvSort(64), s), c.zeroOfSort(s))
 }
